@@ -4,9 +4,9 @@
    carries DCEP (type, reliability, label, protocol) unchanged; that contract
    is the visible premise [fifo_contract] / the definition [dcep_wire].
    Statements only; proofs live in Proofs/DataChannel.v. *)
-From Coq Require Import List NArith String Bool.
+From Coq Require Import List NArith ZArith String Bool.
 Import ListNotations.
-From Verif Require Import Common.Base Model.DataChannel Proofs.DataChannel.
+From Verif Require Import Common.Base Model.DataChannel Proofs.DataChannel Model.DcAccept Proofs.DcAccept.
 Open Scope N_scope.
 
 (* acceptDataChannels undoes DataChannel.open: every parameter record whose
@@ -106,6 +106,62 @@ Theorem c19_send_results :
 Proof. exact results_count. Qed.
 Print Assumptions c19_send_results.
 
+(* ---- the receiving side of an in-band channel (Model/DcAccept.v) ----
+   Schedules are arbitrary lists of: a message arriving, the application
+   registering an OnMessage handler, its OnDataChannel callback returning, the
+   accept loop polling "<-r.onDataChannel(rtcDC)", one read-loop iteration.  A
+   SLOW callback is a schedule with many arrivals before RCallbackReturn.
+   r_fault = the application returned from its callback without ever
+   registering a handler (then loss is its own doing). *)
+
+(* the read loop never runs while the OnDataChannel callback does: the accept
+   loop waits for the callback, however long it takes *)
+Theorem c19_accept_waits_for_callback : forall (M : Type) (evs : list (rev M)),
+  let s := rrun M (rcv_announced M) evs in
+  r_loop s = true -> r_cb_running s = false.
+Proof. exact loop_after_callback. Qed.
+Print Assumptions c19_accept_waits_for_callback.
+
+(* safety, every schedule: no message is read while no handler is installed,
+   and handler invocations followed by what is still queued are exactly the
+   messages that arrived -- each once, in order -- including everything that
+   arrived while the callback was still running *)
+Theorem c19_receiver_exactly_once : forall (M : Type) (evs : list (rev M)),
+  let s := rrun M (rcv_announced M) evs in
+  r_fault s = false ->
+  r_dropped s = [] /\ map snd (r_log s) ++ r_queue s = r_arrived s.
+Proof. exact receiver_safety. Qed.
+Print Assumptions c19_receiver_exactly_once.
+
+(* completeness: once the read loop runs, as many further iterations as there
+   are queued messages hand every arrived message to a handler *)
+Theorem c19_slow_callback_complete : forall (M : Type) (evs : list (rev M)),
+  let s := rrun M (rcv_announced M) evs in
+  r_fault s = false -> r_loop s = true ->
+  let s' := rrun M s (repeat RRead (List.length (r_queue s))) in
+  map snd (r_log s') = r_arrived s' /\ r_dropped s' = [] /\ r_queue s' = [].
+Proof. exact receiver_complete. Qed.
+Print Assumptions c19_slow_callback_complete.
+
+(* which handler: when handlers are registered only inside the callback (any
+   number of times, the last one counts) and later changes are a handler
+   replacing itself, the k-th delivery goes to the k-th entry of the handler's
+   own replacement sequence -- independent of the schedule *)
+Theorem c19_handler_attribution : forall (M : Type) (evs : list (rev M)),
+  let s := rrun M (rcv_announced M) evs in
+  r_fault s = false -> r_late_set s = false -> r_loop s = true ->
+  exists h0, r_h0 s = Some h0 /\ map fst (r_log s) = tags h0 (List.length (r_log s)).
+Proof. exact receiver_attribution. Qed.
+Print Assumptions c19_handler_attribution.
+
+(* negotiated channels (handler registered before the transport is up) *)
+Theorem c19_negotiated_exactly_once : forall (M : Type) h (evs : list (rev M)),
+  let s := rrun M (rcv_negotiated M h) evs in
+  r_fault s = false ->
+  r_dropped s = [] /\ map snd (r_log s) ++ r_queue s = r_arrived s.
+Proof. exact negotiated_safety. Qed.
+Print Assumptions c19_negotiated_exactly_once.
+
 (* pion/datachannel's empty-message encoding (one layer below the contract):
    decoding inverts encoding for every message, and no empty SCTP user message
    is ever produced *)
@@ -135,3 +191,22 @@ Example c19_roundtrip_nontrivial :
   params_ok p /\ both_limits p = false /\
   c_type (open_params p) = ChTimedUnordered /\ c_rel (open_params p) = 65535.
 Proof. cbn. repeat split; reflexivity. Qed.
+
+(* a slow callback: three messages arrive before the handler is registered and
+   the callback returns; the handler replaces itself after two invocations *)
+Example c19_slow_callback_nontrivial :
+  let h := {| h_id := 0%Z; h_left := Some 1%nat; h_next := 1%Z |} in
+  let s := rrun N (rcv_announced N) (canonical N h [10; 20; 30]) in
+  r_log s = [(0%Z, 10); (0%Z, 20); (1%Z, 30)] /\ r_dropped s = [] /\ r_queue s = [] /\
+  r_fault s = false /\ r_late_set s = false /\ r_loop s = true.
+Proof. repeat split. Qed.
+
+(* why the wait matters: a read loop started while the callback still runs
+   (no handler yet) drops what it reads -- the state c19_accept_waits_for_callback
+   shows unreachable *)
+Example c19_read_before_callback_returned_would_drop :
+  let s := {| r_handler := None; r_cb_running := true; r_loop := true; r_queue := [10; 20];
+              r_log := []; r_dropped := []; r_arrived := [10; 20]; r_h0 := None;
+              r_fault := false; r_late_set := false |} in
+  r_dropped (rrun N s [RRead; RRead]) = [10; 20] /\ r_log (rrun N s [RRead; RRead]) = [].
+Proof. split; reflexivity. Qed.
